@@ -7,6 +7,9 @@ import Rustemo.Proofs.GlrCompleteDefs
 import Rustemo.Proofs.GlrPush3
 import Rustemo.Proofs.GlrRun10
 import Rustemo.Proofs.GlrExampleLex
+import Rustemo.Proofs.GlrExampleNul
+import Rustemo.Proofs.GlrSameDeriv
+import Rustemo.Proofs.GlrNoDup4
 import Rustemo.Proofs.Viable
 /-!
 # C03 — the GLR forest contains exactly the derivation trees of the input
@@ -153,12 +156,73 @@ def C03_engine_complete_statement : Prop :=
     ∀ r, Glr.parse env partialParse fuel = .ok r → r.droots.hasCut = false →
       ∃ i tr, r.getTree i = some tr ∧ Tree.EqElide full tr
 
-/-- **(c) No duplicates, full statement** (NOT proved): two different indices never give the same tree modulo
-    elision. -/
-def C03_engine_no_duplicates_statement : Prop :=
+/-- (c) as FIRST written, with the coarse relation `Tree.EqElide` ("equal up to decorations and ANY trailing
+    empty-yield children"): two different indices never give `EqElide` trees.  **FALSE** — see
+    `C03_engine_no_duplicates_coarse_is_false`. -/
+def C03_engine_no_duplicates_coarse_statement : Prop :=
   ∀ (env : Env), Cert.glr env.g env.t = true → Cert.completeRN env.g env.t = true →
   ∀ (partialParse : Bool) (fuel : Nat) (r : GlrResult), Glr.parse env partialParse fuel = .ok r →
   ∀ (i j : Nat) (ti tj : Tree), r.getTree i = some ti → r.getTree j = some tj → Tree.EqElide ti tj → i = j
+
+/-- **The coarse no-duplicates statement is false** (counterexample, kernel-evaluated on the real LALR_RN table of
+    `S: Ta A; A: B | C; B: EMPTY; C: EMPTY`, input `a`): the engine returns the two trees `S(a, A(B))` and
+    `S(a, A(C))` — two different derivations, both correct (the real parser gives the same two trees) — and they are
+    `EqElide`, because `EqElide` identifies any two tails of empty yield.  So "no duplicates" must be stated with
+    "elisions of ONE full derivation tree" (`Tree.SameDerivation`, Proofs/GlrSameDeriv.lean); this is a defect of the
+    first statement, not of the engine. -/
+theorem C03_engine_no_duplicates_coarse_is_false : ¬ C03_engine_no_duplicates_coarse_statement := by
+  intro H
+  have hw := Glr.ExampleNul.dupWitness_run
+  unfold Glr.ExampleNul.dupWitness at hw
+  split at hw
+  · rename_i r hr
+    split at hw
+    · rename_i a b ha hb
+      have := H Glr.ExampleNul.env (by decide +kernel) (by decide +kernel) false 9 r hr 0 1 a b ha hb
+        (Glr.ExampleNul.eqElideB_sound a b hw)
+      omega
+    · simp at hw
+  · simp at hw
+
+/-- **(c) No duplicates, full statement** (corrected): two different indices of a result (acyclic unfolding) never
+    give trees that are elisions of ONE full derivation tree (`Tree.SameDerivation`: same productions and token kinds
+    wherever both keep a node; what one of them drops is a tail of empty yield of the common tree). -/
+def C03_engine_no_duplicates_statement : Prop :=
+  ∀ (env : Env), Cert.glr env.g env.t = true → Cert.completeRN env.g env.t = true →
+  ∀ (partialParse : Bool) (fuel : Nat) (r : GlrResult), Glr.parse env partialParse fuel = .ok r →
+  r.droots.hasCut = false →
+  ∀ (i j : Nat) (ti tj : Tree), r.getTree i = some ti → r.getTree j = some tj → Tree.SameDerivation ti tj → i = j
+
+/-- **(c), the part that is proved: no duplicates FROM three facts about the possibility lists** (under `LexDet`).
+    Certified table, `LexDet`, `Glr.parse = ok r`, acyclic unfolding.  IF in the result graph every possibility list
+    (a) has no repeated node, (b) holds at most one terminal node, (c) holds no two non-terminal nodes of ONE production
+    whose children lists are prefix-comparable (`Glr.PossFacts` — what `is_new_solution` and the fold are meant to
+    guarantee), and the root list has no repetition, THEN two different indices never give the same derivation
+    (`Tree.SameDerivation`).  Proved from the run invariant: one head per (level, state) (`RunInv.hfun`), one edge per
+    pair of heads, transitions are functions, every tree below an edge spans exactly the levels of the edge — so two
+    children lists that differ first at position `i` lead to heads of different levels there, i.e. to sub-trees of
+    different yield length (`Proofs/GlrNoDup2.lean::U_nodup`); the index decoding is injective on an enumeration of
+    pairwise different derivations (`getTree_nodup`).
+    NOT proved: that the run establishes `PossFacts` and a repetition-free root list.  (c) needs more than the fold
+    condition: `is_new_solution` treats a possibility of the SAME length as different without comparing it
+    (parser.rs:577-593, model `differs`), so "no two equal children lists" rests on "no path is reduced twice", i.e.
+    on every (start edge / head, production, length) being queued at most once over the whole reducer run (a history
+    invariant; it also needs cells without repeated actions, which no certificate states yet); (b) and the root list
+    rest on "every head registers its shift / accept once". -/
+theorem C03_engine_no_duplicates_from_poss_facts (env : Env) (hcert : Cert.glr env.g env.t = true)
+    (hcomp : Cert.completeRN env.g env.t = true) (partialParse : Bool) (fuel n : Nat) (tok : Nat → Tok) (P L : Nat → Pos)
+    (hL : LexDet env partialParse fuel n tok P L) (r : GlrResult) (hr : Glr.parse env partialParse fuel = .ok r)
+    (hc : r.droots.hasCut = false) (hp : Glr.PossFacts r.gss) (hroots : r.roots.Nodup)
+    (i j : Nat) (ti tj : Tree) (hi : r.getTree i = some ti) (hj : r.getTree j = some tj)
+    (hsame : Tree.SameDerivation ti tj) : i = j := by
+  obtain ⟨hC, hW⟩ := Cert.completeRN_sound _ _ hcomp
+  exact Glr.parse_nodup (tableOk_of_cert env hcert) hC hW hL hr hp hroots hc hi hj hsame
+
+/-- non-vacuity of `C03_engine_no_duplicates_from_poss_facts`: its extra hypotheses (`PossFacts`, repetition-free
+    roots, no cut) hold of the engine's result on the ambiguous right-nullable example grammar, input `aaa` (3 trees),
+    by evaluation (`possFactsB_sound`); `LexDet` on `aa` is `lexDet_aa` above. -/
+example : Glr.nodupHypsB (Glr.parse (Glr.Example.env 3) false 12) = true := by decide +kernel
+example : Glr.nodupHypsB (Glr.parse (Glr.Example.env 2) false 9) = true := by decide +kernel
 
 /-- **(d), the part that is proved: reduction closure of the GSS** (Scott–Johnstone's key lemma for RNGLR, for
     THIS implementation: FIFO queue, breadth-first path search on the graph as it is when the reduction is
